@@ -2,9 +2,15 @@
    Property theorems only; every proof is `exact <lemma>` from Num/AmountProofs.v or
    Base/RhaProofs.v.  toQ a is the rational an amount denotes, roundQ e q is q rounded half away
    from zero to e decimals (in units of 10^-e).  The model (Num/Amount.v) is tied to num/*.go by
-   the correspondence check of tools/props/c05.py inside the property's magnitude domain. *)
-From Coq Require Import ZArith QArith.
-From Verif Require Import Base.Rha Base.RhaProofs Num.Amount Num.AmountProofs.
+   the correspondence check of tools/props/c05.py inside the property's magnitude domain, and by
+   the ..._impl_exact theorems below to Num/AmountImpl.v, the statement-by-statement transcription
+   of the Go code (int64 wrapping, IEEE binary64 by Flocq's executable binary_float 53 1024,
+   math.Round, int64(f)): inside the in_domain_<op> guards (operands and exact intermediates below
+   2^52 in magnitude, divisors non-zero, rescaling divisors up to 10^63) the float path returns the
+   exact-integer specification. *)
+From Coq Require Import ZArith QArith Rdefinitions.
+From Verif Require Import Base.Int64 Base.Rha Base.RhaProofs Num.Amount Num.AmountProofs.
+From Verif Require Import Num.AmountImpl Num.AmountExact.
 Open Scope Z_scope.
 
 (* rha n d is THE nearest integer to n/d, a tie going to the larger magnitude *)
@@ -104,3 +110,107 @@ Example tie_examples :
   div (mkA 1 0) (mkA (-2) 0) = mkA (-1) 0 /\ rescale (mkA (-125) 2) 1 = mkA (-13) 1 /\
   add (mkA 10 1) (mkA 255 2) = mkA 36 1 /\ split (mkA 100 2) 3 = (mkA 33 2, mkA 34 2).
 Proof. vm_compute. repeat split. Qed.
+
+(* ---------- the float64 / int64 implementation model equals the specification ---------- *)
+(* the heart: the binary64 quotient of integers, then math.Round, never lands on the wrong side
+   of a half: |p| < 2^52, 0 < |q| < 2^64 *)
+Theorem float_quotient_rounds_exactly (p q : Z) :
+  Z.abs p < 2^52 -> q <> 0 -> Z.abs q < 2^64 ->
+  Flocq.Core.Generic_fmt.Znearest (Z.leb 0) (rnd64 (IZR p / IZR q)%R) = rhaS p q.
+Proof. exact (round_div_rhaS p q). Qed.
+Print Assumptions float_quotient_rounds_exactly.
+
+Theorem multiply_impl_exact a b : in_domain_mul a b = true -> impl_mul a b = Defined (mul a b).
+Proof. exact (mul_exact a b). Qed.
+Print Assumptions multiply_impl_exact.
+
+Theorem divide_impl_exact a b : in_domain_div a b = true -> impl_div a b = Defined (div a b).
+Proof. exact (div_exact a b). Qed.
+Print Assumptions divide_impl_exact.
+
+Theorem rescale_impl_exact a e : in_domain_rescale a e = true -> impl_rescale a e = Defined (rescale a e).
+Proof. exact (AmountExact.rescale_exact a e). Qed.
+Print Assumptions rescale_impl_exact.
+
+Theorem add_impl_exact a b : in_domain_add a b = true -> impl_add a b = Defined (add a b).
+Proof. exact (add_exact a b). Qed.
+Print Assumptions add_impl_exact.
+
+Theorem subtract_impl_exact a b : in_domain_sub a b = true -> impl_sub a b = Defined (sub a b).
+Proof. exact (sub_exact a b). Qed.
+Print Assumptions subtract_impl_exact.
+
+Theorem compare_impl_exact a b : in_domain_compare a b = true ->
+  impl_compare a b = Some (compare a b) /\ impl_equals a b = Some (equals a b).
+Proof. exact (fun H => conj (compare_exact a b H) (equals_exact a b H)). Qed.
+Print Assumptions compare_impl_exact.
+
+Theorem split_impl_exact a x : in_domain_split a x = true -> impl_split a x = Some (split a x).
+Proof. exact (split_exact a x). Qed.
+Print Assumptions split_impl_exact.
+
+Theorem negate_impl_exact a : in_domain_negate a = true ->
+  impl_negate a = Defined (negate a) /\ impl_abs a = Defined (abs a).
+Proof. exact (fun H => conj (negate_exact a H) (abs_exact a H)). Qed.
+Print Assumptions negate_impl_exact.
+
+Theorem remove_percentage_impl_exact a p : in_domain_remove a p = true -> impl_remove a p = Defined (remove a p).
+Proof. exact (remove_exact a p). Qed.
+Print Assumptions remove_percentage_impl_exact.
+
+Theorem percentage_of_impl_exact p a : in_domain_pct_of p a = true -> impl_pct_of p a = Defined (pct_of p a).
+Proof. exact (pct_of_exact p a). Qed.
+Print Assumptions percentage_of_impl_exact.
+
+Theorem percentage_from_impl_exact p a : in_domain_pct_from p a = true -> impl_pct_from p a = Defined (pct_from p a).
+Proof. exact (pct_from_exact p a). Qed.
+Print Assumptions percentage_from_impl_exact.
+
+Theorem percentage_conversions_impl_exact a :
+  (in_domain_factor a = true -> impl_factor a = Defined (factor a)) /\
+  (in_domain_pct_from_amount a = true -> impl_pct_from_amount a = Defined (pct_from_amount a)) /\
+  (in_domain_pct_amount a = true -> impl_pct_amount a = Defined (pct_amount a)).
+Proof. exact (conj (factor_exact a) (conj (pct_from_amount_exact a) (pct_amount_exact a))). Qed.
+Print Assumptions percentage_conversions_impl_exact.
+
+Theorem conditional_rescales_impl_exact a b e lo hi n :
+  (in_domain_rescale a (Nat.max e (exp a)) = true -> impl_rescale_up a e = Defined (rescale_up a e)) /\
+  (in_domain_rescale a (Nat.min e (exp a)) = true -> impl_rescale_down a e = Defined (rescale_down a e)) /\
+  (in_domain_rescale a (Nat.max lo (exp a)) = true ->
+   in_domain_rescale (rescale_up a lo) (Nat.min hi (exp (rescale_up a lo))) = true ->
+   impl_rescale_range a lo hi = Defined (rescale_range a lo hi)) /\
+  (in_domain_rescale a (Nat.max (exp b) (exp a)) = true -> impl_match_precision a b = Defined (match_precision a b)) /\
+  (in_domain_rescale a (exp a + n) = true -> impl_upscale a n = Defined (upscale a n)) /\
+  (in_domain_rescale a (exp a - n) = true -> impl_downscale a n = Defined (downscale a n)).
+Proof.
+  exact (conj (rescale_up_exact a e) (conj (rescale_down_exact a e) (conj (rescale_range_exact a lo hi)
+        (conj (match_precision_exact a b) (conj (upscale_exact a n) (downscale_exact a n)))))).
+Qed.
+Print Assumptions conditional_rescales_impl_exact.
+
+(* non-vacuity of the guards, on ties (0.5 * 0.5 = 0.25 -> 0.3, 1 / -2 -> -1, -1.25 -> -1.3), at
+   the 2^52 edge, and the model outside the domain: a zero divisor and a result beyond int64 are
+   Undefined, 10^19 wraps in intPow *)
+Example impl_tie_examples :
+  in_domain_mul (mkA 5 1) (mkA 5 1) = true /\ impl_mul (mkA 5 1) (mkA 5 1) = Defined (mkA 3 1) /\
+  impl_mul (mkA (-5) 1) (mkA 5 1) = Defined (mkA (-3) 1) /\
+  in_domain_div (mkA 1 0) (mkA (-2) 0) = true /\ impl_div (mkA 1 0) (mkA (-2) 0) = Defined (mkA (-1) 0) /\
+  in_domain_rescale (mkA (-125) 2) 1 = true /\ impl_rescale (mkA (-125) 2) 1 = Defined (mkA (-13) 1) /\
+  in_domain_add (mkA 10 1) (mkA 255 2) = true /\ impl_add (mkA 10 1) (mkA 255 2) = Defined (mkA 36 1) /\
+  in_domain_split (mkA 100 2) 3 = true /\ impl_split (mkA 100 2) 3 = Some (mkA 33 2, mkA 34 2) /\
+  in_domain_pct_from (mkA 21 2) (mkA 12100 2) = true /\ impl_pct_from (mkA 21 2) (mkA 12100 2) = Defined (mkA 2100 2) /\
+  in_domain_div (mkA (2^52 - 1) 0) (mkA 2 0) = true /\
+  impl_div (mkA (2^52 - 1) 0) (mkA 2 0) = Defined (mkA (2^51) 0) /\
+  impl_div (mkA 1 0) (mkA 0 0) = Undefined /\ impl_mul (mkA (2^62) 0) (mkA (2^62) 0) = Undefined /\
+  intpow10 19 = 10^19 - 2^64 /\
+  in_domain_rescale (mkA (2^52 - 1) 63) 0 = true /\ impl_rescale (mkA (2^52 - 1) 63) 0 = Defined (mkA 0 0) /\
+  in_domain_mul (mkA (2^52 - 1) 2) (mkA 1 19) = true /\ impl_mul (mkA (2^52 - 1) 2) (mkA 1 19) = Defined (mkA 0 2).
+Proof. vm_compute. repeat split. Qed.
+
+(* the exponent bound of the guards is tight in the implementation model: intPow(10, 64) = 0 (mod 2^64),
+   the quotient is NaN or Inf and int64 of it is not defined by the language (amd64: MinInt64) *)
+Theorem exponent_guard_is_needed_refuted :
+  exists a b, small52 (val a) = true /\ small52 (val b) = true /\ small52 (val a * val b) = true /\
+    impl_mul a b <> Defined (mul a b) /\ impl_rescale b 0 <> Defined (rescale b 0).
+Proof. exists (mkA 0 0), (mkA 0 64). vm_compute. repeat split; discriminate. Qed.
+Print Assumptions exponent_guard_is_needed_refuted.
